@@ -23,8 +23,14 @@ from mc.report import Report, ROOT
 MODEL_DIR = os.path.join(ROOT, "models")
 OPID = "fixed-op-id"
 
-SCHEMA = "type Query { a: Int }\ntype Subscription { tick(n: Int, f: In, query: String, data: Int): Tick! }\ntype Tick { tick: Int! }\ninput In { someValue: Int other: String }\n"
-QUERY = "subscription Tick($n: Int, $f: In, $query: String, $data: Int) { tick(n: $n, f: $f, query: $query, data: $data) { tick } }\n"
+SCHEMA = ("scalar Stamp\ntype Query { a(at: Stamp): Int }\ntype Subscription { tick(n: Int, f: In, query: String, data: Int, at: Stamp!): Tick! }\ntype Tick { tick: Int! }\n"
+          "input In { someValue: Int other: String }\n")
+QUERY = "subscription Tick($n: Int, $f: In, $query: String, $data: Int, $at: Stamp!) { tick(n: $n, f: $f, query: $query, data: $data, at: $at) { tick } }\n"
+# the generated packages also contain an operation BEFORE the subscription that uses the same configured scalar
+GEN_QUERIES = "query First($at: Stamp!) { a(at: $at) }\n" + QUERY
+STAMP_MOD = "def to_epoch(value):\n    return int(value.timestamp())\n"
+GEN_AT = __import__("datetime").datetime.fromtimestamp(86400, tz=__import__("datetime").timezone.utc)
+GEN_SCALARS = {"scalars": {"Stamp": {"type": "datetime.datetime", "serialize": ".stamp_mod.to_epoch"}}}
 D1, D2 = {"tick": {"tick": 1}}, {"tick": {"tick": 2}}
 
 WIRE = {
@@ -218,6 +224,8 @@ def variants(pkg_root, pkg_names):
             v = cfg.get("variables")
             if callable(v):
                 v = v(clients.dep_module("base_model").UNSET)
+            if isinstance(v, dict) and "product" in str(cfg.get("label", "")) or (isinstance(v, dict) and cfg.get("wire_variables") is not None):
+                v = dict(v, at=86400)
             opn = cfg.get("operation_name", "Tick")
             if opn == "<omitted>":
                 return lambda: c.execute_ws(query=QUERY, variables=v, **kw)
@@ -232,8 +240,14 @@ def variants(pkg_root, pkg_names):
                 c = m.Client(ws_url="ws://verif.invalid/ws", ws_headers=cfg.get("ws_headers"), ws_origin=cfg.get("ws_origin"),
                              ws_connection_init_payload=cfg.get("init_payload"), **clients.tracer_kwargs(kind, tv))
                 gv = cfg.get("gen_kwargs") or {}
-                return lambda: c.tick(**gv(m) if callable(gv) else gv, **(cfg.get("call_kwargs") or {}))
-            out[label] = (base, mk, lambda x: x.model_dump(by_alias=True, mode="json"))
+                gv = dict(gv(m) if callable(gv) else gv)
+                gv.setdefault("at", GEN_AT)   # required configured-scalar variable of the generated method (serialised to 86400)
+                return lambda: c.tick(**gv, **(cfg.get("call_kwargs") or {}))
+            if label.endswith("+shorter"):
+                # ShorterResults: the method yields the single top-level field instead of the wrapper model
+                out[label] = (base, mk, lambda x: {"tick": x.model_dump(by_alias=True, mode="json")})
+            else:
+                out[label] = (base, mk, lambda x: x.model_dump(by_alias=True, mode="json"))
     return out
 
 
@@ -307,6 +321,10 @@ def replay_state(variant, st, cfg, loop):
             if " ".join((p.get("query") or "").split()) != " ".join(QUERY.split()) or p.get("operationName") != want_opname:
                 probs.append(("subscribe_frame", f"query/operationName {p.get('query')!r} {p.get('operationName')!r}"))
             wv = cfg.get("wire_variables")
+            if not variant_is_bundled:
+                wv = dict(wv or {}, at=86400)
+            elif cfg.get("variables") is not None or wv:
+                wv = dict(wv or {}, at=86400)
             if (p.get("variables") or {}) != (wv or {}):
                 probs.append(("subscribe_variables", f"variables {p.get('variables')!r} expected {wv!r}"))
             if set(d) - {"id", "type", "payload"} or set(p) - {"query", "operationName", "variables"}:
@@ -366,7 +384,7 @@ def replay_sequence(variant, st, loop):
         if client is not None and hasattr(client, "execute_ws") and not hasattr(client, "tick"):
             f2 = lambda: client.execute_ws(query=QUERY, operation_name="Tick", variables=None)
         elif client is not None:
-            f2 = lambda: client.tick()
+            f2 = lambda: client.tick(at=GEN_AT)
         else:
             return probs
         loop.run_until_complete(drive(f2, None))
@@ -467,16 +485,19 @@ def gen_packages(root):
     def gen(case):
         out = {}
         for label, opts in case:
-            pkg, _, _ = genpkg.generate(root, SCHEMA, QUERY, opts, pkg=f"c13pkg_{label}")
+            pkg, _, _ = genpkg.generate(root, SCHEMA, GEN_QUERIES, dict(opts, files_to_include=[os.path.join(root, "stamp_mod.py")], **GEN_SCALARS), files={"stamp_mod.py": STAMP_MOD},
+                                        pkg=f"c13pkg_{label}")
             out[label] = pkg
         return out
     # each generation in its own fork
     names = []
-    for label, opts, kind, tv in (("plain", {"async_client": True}, "async", "none"), ("ot", {"async_client": True, "opentelemetry_client": True}, "async_ot", "stub")):
+    SH = "ariadne_codegen.contrib.shorter_results.ShorterResultsPlugin"
+    for label, opts, kind, tv in (("plain", {"async_client": True}, "async", "none"), ("ot", {"async_client": True, "opentelemetry_client": True}, "async_ot", "stub"),
+                                  ("shorter", {"async_client": True, "plugins": [SH]}, "async", "none")):
         st, r = pool.run_forked(gen, [(label, opts)])
         if st != "ok":
             raise RuntimeError(f"generation failed: {r}")
-        names.append((f"generated:{kind}/{tv}", r[label], kind, tv))
+        names.append((f"generated:{kind}/{tv}" + ("+shorter" if label == "shorter" else ""), r[label], kind, tv))
     return names
 
 
